@@ -1276,6 +1276,19 @@ def rule_attach_table(ctx):
                                   for name, v, node in _appends(fn))
                         stores = [x for x in walk_no_nested(fn.node) if isinstance(x, ast.Name) and x.id == a_obj.id and isinstance(x.ctx, ast.Store)]
                         okk = okk and len(stores) == 1
+                        if not okk and len(stores) == 1:
+                            # ... or a local bound once to the element this iteration just appended: `x = arr[-1]` / `x = arr[i]`
+                            dfn = next((st for st in walk_no_nested(fn.node) if isinstance(st, ast.Assign) and len(st.targets) == 1
+                                        and isinstance(st.targets[0], ast.Name) and st.targets[0].id == a_obj.id), None)
+                            v_ = dfn.value if dfn is not None else None
+                            if isinstance(v_, ast.Subscript) and dotted(v_.value) == arr:
+                                sl = v_.slice
+                                last = (isinstance(sl, ast.UnaryOp) and isinstance(sl.op, ast.USub) and isinstance(sl.operand, ast.Constant) and sl.operand.value == 1) \
+                                    or (isinstance(sl, ast.Constant) and sl.value == -1)
+                                loops = [l for l in walk_no_nested(fn.node) if isinstance(l, ast.For) and l.lineno <= n.lineno <= l.end_lineno]
+                                byvar = bool(loops) and isinstance(loops[-1].target, ast.Name) and isinstance(sl, ast.Name) and sl.id == loops[-1].target.id
+                                appended_before = any(name == arr and node.lineno <= dfn.lineno for name, v, node in _appends(fn))
+                                okk = (last or byvar) and appended_before
                 else:
                     okk = isinstance(tagn, ast.Name) and tagn.id == tagvar and isinstance(argn, ast.Name) and argn.id == argvar
                 ctx.ob("attach-table", fn, n, unparse(n, 80), "descriptor triple is (tag, args of that sketch, name of that sketch's block)", bool(okk))
